@@ -262,6 +262,8 @@ func concDeadRun(w concWork, seg *concSegment, why string) concRun {
 	return r
 }
 
+const concMaxDeaths = 3
+
 // concRunBatch runs the workloads, in order, through one helper process (restarted for the
 // remaining workloads if it dies).  Files live under work and are removed per workload.
 func concRunBatch(work string, ws []concWork) []concRun {
@@ -282,7 +284,14 @@ func concRunBatch(work string, ws []concWork) []concRun {
 	runs := make([]concRun, len(ws))
 	path := func(n int) string { return filepath.Join(work, fmt.Sprintf("conc-%d-%d.car", os.Getpid(), n)) }
 	next := 0
+	deaths := 0
 	for next < len(ws) {
+		// a library that hangs or kills the helper again and again has been shown broken: the
+		// remaining workloads would only cost 10 s each (watchdog)
+		if deaths >= concMaxDeaths {
+			fmt.Fprintf(os.Stderr, "conc: the helper died or hung %d times; %d workloads not run\n", deaths, len(ws)-next)
+			return runs[:next]
+		}
 		var stdin bytes.Buffer
 		for n := next; n < len(ws); n++ {
 			wj := concWorkJ{N: n, Store: ws[n].Store, V1: ws[n].V1, Path: path(n)}
@@ -356,6 +365,7 @@ func concRunBatch(work string, ws []concWork) []concRun {
 				runs[next] = concDeadRun(w, seg, why)
 				os.Remove(path(next)) // the helper could not remove it itself
 				next++
+				deaths++
 				progressed = true
 			}
 			break // restart the helper for the remaining workloads
